@@ -178,6 +178,11 @@ type mon struct {
 	plan []actPlan
 	acts []actDone
 	nAct int
+
+	// replays under other chain reference ids, worlds whose chains share the compass unique id (crossref.go)
+	xr          *rand.Rand
+	sharedRound *evmtypes.SmartContract
+	sharedOld   *evmtypes.SmartContract
 }
 
 type outMsg struct {
@@ -222,6 +227,10 @@ func run(c fw.Case, tier string, rec *fw.Recorder) {
 	_ = m.c.App.TreasuryKeeper.SetSecurityFee(m.c.Ctx(), "0.02")
 	rec.Sample(map[string]any{"params": p, "tokens": w.Tokens, "start_height": m.c.Height})
 	m.startH = m.c.Height
+	m.xr = newCrossRand(c.Seed)
+	if !m.shareCompassIDs() {
+		return
+	}
 	m.planActivations(c.Seed)
 	m.cur = m.observe()
 	m.absorb(m.cur, nil)
@@ -661,6 +670,8 @@ type evCase struct {
 	State    string // state of the batch when the evidence is submitted
 	Sender   *chain.Account
 	Mode     string // fork | realtx
+	Conf     *confirmation // the genuine signature the evidence is made of (replays; nil for fabricated signatures)
+	Rel      string        // relation of ChainRef to the chain the signature was made for (crossref.go; "" = decide at judgement)
 }
 
 type verdict struct {
@@ -754,6 +765,7 @@ func (m *mon) judge(ec evCase, ver verdict, before, after []bool, accepted bool,
 			w["signed_by_validator"] = m.w.Vals[ver.Signer].Name + " " + m.w.Vals[ver.Signer].ValBech()
 		}
 		m.actWitness(w, ec.ChainRef, ver.Entry)
+		m.chainRefWitness(w, ec)
 		for k, v := range extra {
 			w[k] = v
 		}
@@ -771,9 +783,15 @@ func (m *mon) judge(ec evCase, ver verdict, before, after []bool, accepted bool,
 			outcome = "VIOLATION-issued"
 			stage := ver.Entry.Stage
 			m.rec.Count("violations_jailed_for_issued_checkpoint:"+stage, 1)
-			m.rec.Violation("SubmitBadSignatureEvidence/jailed-signer-of-issued-checkpoint/stage="+stage,
-				fmt.Sprintf("%s replayed %s's genuine signature over a checkpoint the chain issued (stage %s, batch %s, first seen at height %d) as bad-signature evidence at height %d (%s, batch now %s): the signer was jailed",
-					ec.Sender.Name, m.w.Vals[i].Name, stage, ver.Entry.Key, ver.Entry.FirstSeen, m.c.Height, ec.Mode, ec.State),
+			sig, under := "SubmitBadSignatureEvidence/jailed-signer-of-issued-checkpoint/stage="+stage, ""
+			if ec.ChainRef != ver.Entry.Chain {
+				// the evidence names another chain than the one the batch was built for
+				sig += "/evidence-names-sibling-chain"
+				under = fmt.Sprintf(" naming chain reference id %s", ec.ChainRef)
+			}
+			m.rec.Violation(sig,
+				fmt.Sprintf("%s replayed %s's genuine signature over a checkpoint the chain issued (stage %s, batch %s, first seen at height %d) as bad-signature evidence%s at height %d (%s, batch now %s): the signer was jailed",
+					ec.Sender.Name, m.w.Vals[i].Name, stage, ver.Entry.Key, ver.Entry.FirstSeen, under, m.c.Height, ec.Mode, ec.State),
 				wit(map[string]any{"jailed": name}))
 		default:
 			outcome = "jailed-bad-signer"
@@ -798,6 +816,7 @@ func (m *mon) judge(ec evCase, ver verdict, before, after []bool, accepted bool,
 			m.rec.Count("replay_tried_activation:issued-in="+ver.Entry.Act+"/now="+m.actState(ec.ChainRef), 1)
 		}
 	}
+	m.noteChainRef(ec, before)
 	m.rec.Count("evidence_"+ec.Mode+":"+strings.SplitN(ec.Kind, ":", 2)[0], 1)
 	actKey := ""
 	if len(m.acts) > 0 {
@@ -865,7 +884,7 @@ func (m *mon) anyAccount() *chain.Account {
 // replayCase builds the evidence a replayer makes out of a genuine signature: the batch as the
 // chain stored it when it was signed, optionally in an equivalent spelling.
 func (m *mon) replayCase(cf *confirmation, variant int) evCase {
-	ec := evCase{Subject: cloneBatch(cf.Entry.Subject), SigHex: cf.SigHex, ChainRef: cf.Entry.Chain, Kind: "replay", Stage: cf.Entry.Stage, State: m.stateOf(cf.Entry)}
+	ec := evCase{Subject: cloneBatch(cf.Entry.Subject), SigHex: cf.SigHex, ChainRef: cf.Entry.Chain, Kind: "replay", Stage: cf.Entry.Stage, State: m.stateOf(cf.Entry), Conf: cf}
 	switch variant {
 	case 1: // fields that are not part of the checkpoint
 		ec.Kind = "replay-equivalent:non-signed-fields"
@@ -1020,6 +1039,7 @@ func (m *mon) hostileCase() (evCase, bool) {
 			other = m.w.Chains[1]
 		}
 		ec.Subject, ec.Kind, ec.SigHex, ec.ChainRef, ec.Stage, ec.State = cloneBatch(cf.Entry.Subject), "wrong-chain", cf.SigHex, other, cf.Entry.Stage, m.stateOf(cf.Entry)
+		ec.Conf = cf
 	}
 	return ec, true
 }
@@ -1047,6 +1067,8 @@ func (m *mon) forkRound() {
 			m.submitOnFork(ec)
 		}
 	}
+	// genuine signatures under chain reference ids that are not the batch's (own random stream)
+	m.crossRefRound()
 }
 
 // realEvidenceOps: at most one real evidence transaction per block.
@@ -1078,6 +1100,10 @@ func (m *mon) realEvidenceOps(h int64) {
 			// that the snapshot keeps the composition the stake vector was made for
 			have = false
 		}
+	}
+	if !have {
+		// a genuine signature under a chain reference id that is not the batch's (own random stream)
+		ec, have = m.crossRefReal()
 	}
 	if !have {
 		return
